@@ -356,13 +356,16 @@ func emitDir(w *bufio.Writer, wid string, d dirSnap) {
 	fmt.Fprintf(w, "ENDDIR %s\n", d.id)
 }
 
-// genwal <cases-out> <seed> <tier>
+// genwal <cases-out> <seed> <tier> [big|small]
 func genWalCmd(args []string) error {
-	if len(args) != 3 {
-		return fmt.Errorf("genwal <cases> <seed> <quick|thorough>")
+	if len(args) != 3 && len(args) != 4 {
+		return fmt.Errorf("genwal <cases> <seed> <quick|thorough> [big|small]")
 	}
 	seed, _ := strconv.ParseUint(args[1], 10, 64)
 	thorough := args[2] == "thorough"
+	if len(args) == 4 && args[3] == "small" {
+		return genSmallCmd(args[0], seed, thorough)
+	}
 	r := newRng(seed ^ 0x16a1)
 	f, err := os.Create(args[0])
 	if err != nil {
@@ -377,9 +380,9 @@ func genWalCmd(args []string) error {
 	}
 	defer os.RemoveAll(root)
 
-	nscen := 3
+	nscen := 1
 	if thorough {
-		nscen = 8
+		nscen = 5
 	}
 	cid, didc := 0, 0
 	next := func() string { cid++; return fmt.Sprintf("c%d", cid) }
@@ -566,16 +569,16 @@ func genWalCmd(args []string) error {
 		// (b) every offset (thorough) or sampled offsets (quick) of the last segment's data,
 		//     plus a few in the zero tail and in earlier segments
 		_, endL := frameOffsets(final.files[li].data)
-		if thorough && s < 4 {
+		if thorough && s < 1 {
 			for off := 0; off < endL+16; off++ {
 				for _, v := range valuesFor(final.files[li].data[off%len(final.files[li].data)]) {
 					emitM(li, off, v, 0, 0)
 				}
 			}
 		} else {
-			n := 150
+			n := 60
 			if thorough {
-				n = 1500
+				n = 500
 			}
 			for t := 0; t < n; t++ {
 				off := r.intn(endL + 16)
